@@ -510,13 +510,30 @@ impl<R: Read + io::Seek> ZipArchive<R> {
     /// Extraction is not atomic; If an error is encountered, some of the files
     /// may be left on disk.
     pub fn extract<P: AsRef<Path>>(&mut self, directory: P) -> ZipResult<()> {
-        use std::fs;
-
         // The recorded Unix modes are applied once every entry has been written: a read-only
         // directory must not get in the way of its own contents, nor a read-only file in the
         // way of a later entry of the same name.
-        #[cfg(unix)]
         let mut modes = Vec::new();
+        let placed = self.place_entries(directory.as_ref(), &mut modes);
+        // Set permissions: also after a failure, for the entries written before it, so that
+        // what a failed extraction leaves on disk is not more accessible than recorded
+        #[cfg(unix)]
+        let applied = apply_unix_modes(modes);
+        placed?;
+        #[cfg(unix)]
+        applied?;
+        Ok(())
+    }
+
+    /// Writes the entries below `directory`, in archive order, up to the first failure; records
+    /// the Unix mode (depth, path, mode) of every entry written.
+    #[cfg_attr(not(unix), allow(unused_variables))]
+    fn place_entries(
+        &mut self,
+        directory: &Path,
+        modes: &mut Vec<(usize, std::path::PathBuf, u32)>,
+    ) -> ZipResult<()> {
+        use std::fs;
 
         for i in 0..self.len() {
             let mut file = self.by_index(i)?;
@@ -526,7 +543,7 @@ impl<R: Read + io::Seek> ZipArchive<R> {
             #[cfg(unix)]
             let depth = path_depth(filepath);
 
-            let outpath = directory.as_ref().join(filepath);
+            let outpath = directory.join(filepath);
 
             if file.name().ends_with('/') {
                 fs::create_dir_all(&outpath)?;
@@ -545,9 +562,6 @@ impl<R: Read + io::Seek> ZipArchive<R> {
                 modes.push((depth, outpath, mode));
             }
         }
-        // Set permissions
-        #[cfg(unix)]
-        apply_unix_modes(modes)?;
         Ok(())
     }
 
